@@ -662,6 +662,35 @@ func (cs *Contracts) LoadAll(repo, verif string) error {
 			return err
 		}
 	}
+	// a property tag on any clause of a function makes the function part of that property's check
+	for _, fc := range cs.funcs {
+		have := map[string]bool{}
+		for _, p := range fc.Props {
+			have[p] = true
+		}
+		add := func(ps []string) {
+			for _, p := range ps {
+				if !have[p] {
+					have[p] = true
+					fc.Props = append(fc.Props, p)
+				}
+			}
+		}
+		for _, cl := range fc.Requires {
+			add(cl.Props)
+		}
+		for _, cl := range fc.Ensures {
+			add(cl.Props)
+		}
+		for _, cls := range fc.LoopInv {
+			for _, cl := range cls {
+				add(cl.Props)
+			}
+		}
+		for _, tr := range fc.Traces {
+			add(tr.Props)
+		}
+	}
 	am, _ := filepath.Glob(filepath.Join(verif, "contracts", "assumed", "*.contract"))
 	for _, p := range am {
 		if err := cs.LoadContractFile(p, "", false); err != nil {
